@@ -79,11 +79,16 @@ def run(ctx):
             continue
         var = idx_map.get(i)
         key = "regex[%s]" % (var or i)
-        fm = re.match(r"^\(\?([a-zA-Z]+)\)\^", rx)
+        fm = re.match(r"^\(\?([a-zA-Z]*)(?:-([a-zA-Z]+))?\)\^", rx)
         flags = set(fm.group(1)) if fm else set()
+        off = set(fm.group(2) or "") if fm else set()
+        rest = rx[len(fm.group(0)):] if fm else rx
         # case-insensitive, and NOT multi-line (with `m`, ^ and $ match at every line of the query)
-        ok_anchor = bool(fm) and "i" in flags and "m" not in flags and rx.endswith("$") and not rx.endswith("\\$") and not re.search(r"\(\?[a-zA-Z]*m[a-zA-Z]*[):]", rx[len(fm.group(0)):] if fm else rx)
-        r1.check(ok_anchor, key + ":anchored", "%r is anchored with (?i)^ ... $" % rx, "%r is not a whole-query, case-insensitive pattern: a query that merely contains the command text would be swallowed" % rx)
+        ok_anchor = bool(fm) and "i" in flags and "m" not in flags and rx.endswith("$") and not rx.endswith("\\$") and not re.search(r"\(\?[a-zA-Z]*m[a-zA-Z]*[-):]", rest)
+        r1.check(ok_anchor, key + ":anchored", "%r is anchored with (?i..)^ ... $" % rx, "%r is not a whole-query, case-insensitive pattern: a query that merely contains the command text would be swallowed" % rx)
+        # keywords are ASCII: case folding must be ASCII too (Unicode folding makes U+017F LONG S match `S` and U+212A KELVIN SIGN match `K`;
+        # PostgreSQL folds keywords in ASCII only) - D43
+        r1.check("u" in off, key + ":ascii-case-folding", "case folding is ASCII-only ((?i-u))", "%r folds case the Unicode way: `\u017fET \u017fHARD TO 1` and `SET SHARDING \u212aEY TO 5` are taken for commands although PostgreSQL would reject them" % rx)
         # no unanchored top-level alternation
         depth = 0
         top_alt = False
@@ -103,18 +108,35 @@ def run(ctx):
         r1.check(not top_alt, key + ":no-top-level-alternation", "no top-level `|` (anchors bind the whole pattern)", "%r has a top-level alternation: one side escapes the anchors" % rx)
         if var in CMD:
             kws, cap = CMD[var]
-            body = rx[len(fm.group(0)):-1] if fm else rx
-            words = re.findall(r"[A-Za-z]+", re.sub(r"\([^)]*\)", " ", body))
+            body = rest[:-1]
+            # strip groups (innermost first) to find the keywords
+            stripped = body
+            while re.search(r"\([^()]*\)", stripped):
+                stripped = re.sub(r"\([^()]*\)", " ", stripped)
+            words = re.findall(r"[A-Za-z]+", stripped)
             r1.check([w.upper() for w in words] == kws, key + ":keywords", "keywords %s match Command::%s" % (kws, var), "regex %d (%r) is paired with Command::%s but spells %s" % (i, rx, var, words))
-            ngroups = len(re.findall(r"(?<!\\)\((?!\?)", rx))
-            r1.check(ngroups == (1 if cap else 0), key + ":capture", "capture groups: %d" % ngroups, "Command::%s expects %d capture group(s), regex has %d" % (var, 1 if cap else 0, ngroups))
+            groups = re.findall(r"(?<!\\)\((?!\?)([^()]*)\)", rx)
+            # a value may be written quoted or bare: one capture group per spelling, all with the same value pattern
+            r1.check((len(groups) >= 1 and len(set(groups)) == 1) if cap else not groups, key + ":capture", "capture groups: %s" % groups,
+                     "Command::%s expects %s, regex has %s" % (var, "capture group(s) with one value pattern" if cap else "no capture group", groups))
+            # quotes come in pairs (D43): no optional quote, and the quotes around every capture group are both there or both absent
+            unb = "'?" in rx or any((rx[m_.start() - 1:m_.start()] == "'") != (rx[m_.end():m_.end() + 1] == "'") for m_ in re.finditer(r"(?<!\\)\((?!\?)[^()]*\)", rx))
+            r1.check(not unb, key + ":quotes-balanced", "quotes around the value are both present or both absent", "%r accepts a value with one quote only (`SET SHARD TO '1`), which is not a documented spelling" % rx)
             if var == "SetServerRole":
-                m = re.search(r"\(([^)]*)\)", rx[len(fm.group(0)):] if fm else rx)
-                alts = sorted(a.lower() for a in m.group(1).split("|")) if m else []
+                alts = sorted(a.lower() for a in groups[0].split("|")) if groups else []
                 r1.check(alts == ["any", "auto", "default", "primary", "replica"], key + ":role-literals", "role alternation is exactly the five handled literals", "role alternation %s differs from the literals handled by try_execute_command" % alts)
             if var in ("SetShardingKey", "SetShard"):
-                m = re.search(r"\(([^)]*)\)", rx[len(fm.group(0)):] if fm else rx)
-                r1.check(bool(m) and m.group(1).split("|")[0] == "[0-9]+", key + ":numeric", "numeric argument is [0-9]+", "numeric argument pattern changed: %s" % (m and m.group(1)))
+                r1.check(bool(groups) and groups[0].split("|")[0] == "[0-9]+", key + ":numeric", "numeric argument is [0-9]+", "numeric argument pattern changed: %s" % (groups and groups[0]))
+    # the value is taken from whichever group holds it: every capture group index of the table is read
+    if tec and regexes:
+        need = max([len(re.findall(r"(?<!\\)\((?!\?)[^()]*\)", rx)) for rx in regexes if isinstance(rx, str)] or [0])
+        got = set()
+        for n_, b_ in F.bodies.items():
+            if n_ == TEC or n_.startswith(TEC + "::{closure"):
+                for c in b_.calls("re:regex::regex::string::Captures.*::get$"):
+                    if len(c.args) > 1 and const_int(c.args[1]) is not None:
+                        got.add(const_int(c.args[1]))
+        r1.check(set(range(1, need + 1)) <= got, "value-read-from-every-group", "the value is read from capture group(s) %s" % sorted(got), "the table has patterns with %d capture groups, try_execute_command reads only group(s) %s: a value spelled the other way is lost (the command is forwarded)" % (need, sorted(got)))
     # the role literal match arms in try_execute_command cover the alternation
     if tec:
         lits = set()
